@@ -1,5 +1,5 @@
 import GPVerif.Model.ParamStore
-import GPVerif.Model.Priors
+import GPVerif.Gen.Priors
 import GPVerif.Model.Proto
 /-!
 Line-protocol driver for C17 (Float instance of the generated constraint formulas / store model / prior
@@ -59,8 +59,8 @@ def prior (name : String) (a : List Float) : Option Float :=
   | "uniform", [a, b] => some (Priors.uniformLogProb a b)
   | "halfcauchy", [s, x] => some (Priors.halfCauchyLogProb s x)
   | "gamma", [a, b, lg, x] => some (Priors.gammaLogProb a b lg x)
-  | "sbox", [a, b, σ, x] => some (Priors.smoothedBoxLogProb a b σ x)
-  | "horseshoe", [s, x] => some (Priors.horseshoeLogProb s x)
+  | "sbox", [a, b, σ, x] => some (Gen.Priors.smoothedBoxLogProb a b σ x)
+  | "horseshoe", [s, x] => some (Gen.Priors.horseshoeLogProb s x)
   | _, _ => none
 
 def step (line : String) : String :=
